@@ -83,8 +83,10 @@ def parse_inputbox(tokens, xopts):
 
     for token in tokens:
         if token.tagname == "inputbox":
-            token.inputbox = Token.join_as_text(token.children)
-            del token.children[:]
+            # <inputbox/> (self-closing) has no children list
+            token.inputbox = Token.join_as_text(token.children or [])
+            if token.children:
+                del token.children[:]
 
 
 def create(current, tokens, sections, index):
